@@ -31,11 +31,16 @@ def handle (op : String) (j : Json) : R Json := do
       pure (jobj [("unsupported", jbool true)])
     else
       -- number of records the unifier returns (the code warns when there are several)
-      let n : Nat := match pre with
-        | some eqs => if eqs.all (fun p => cands.contains p.1) then (unif cands vfirst tmpl target [URec.ofEqs eqs]).length else 0
-        | none => (unif cands vfirst tmpl target [URec.empty]).length
+      let recs : List URec := match pre with
+        | some eqs => if eqs.all (fun p => cands.contains p.1) then unif cands vfirst tmpl target [URec.ofEqs eqs] else []
+        | none => unif cands vfirst tmpl target [URec.empty]
+      let n : Nat := recs.length
+      let mapJ (m : List (Name × Expr)) : Json := jarr ((sortEqs m).map fun (n, x) => jarr [jstr n, exprJ x])
+      -- all records (each of them is a semantic unifier: `unifier_sound`); WHICH one the front end returns
+      -- depends on an order the property leaves open - the harness accepts any of them
+      let alts : List Json := if n ≤ 64 then recs.map (fun r => mapJ r.lmap) else []
       match matchE cands vfirst pre tmpl target with
-      | .ok m => pure (jobj [("ok", jarr ((sortEqs m).map fun (n, x) => jarr [jstr n, exprJ x])), ("n", jnat n)])
+      | .ok m => pure (jobj [("ok", mapJ m), ("n", jnat n), ("alts", jarr alts)])
       | .error .preNotCandidate => pure (jobj [("err", jstr "preNotCandidate")])
       | .error .cannotUnify => pure (jobj [("err", jstr "cannotUnify")])
   | _ => throw s!"unknown op C17.{op}"
